@@ -144,6 +144,15 @@ class IterStream:
         return True
 
 
+def pick(v, label, n):
+    """v.choose restricted to the alternatives a harness variant names in its `only` option (used to keep a value that the code reads at ONE
+    place from being multiplied into dimensions it cannot interact with; every restriction is listed at the variant and in NOT_DECIDED)."""
+    allowed = v.hdef.opts.get('only', {}).get(label)
+    if allowed is None:
+        return v.choose(n, label)
+    return allowed[v.choose(len(allowed), label)]
+
+
 def mk_resp(v, cls, asgi, statuses):
     st_i = v.choose(len(statuses), 'status')
     status = statuses[st_i]
@@ -155,7 +164,7 @@ def mk_resp(v, cls, asgi, statuses):
     text = None if tk == 0 else (v.str('text') if tk == 1 else v.bytes('text_bytes'))
     data = v.bytes('data') if v.choose(2, 'data?') else None
     # 4: a file-like object without close() -- only the ASGI tail asks hasattr(stream, 'close') (WSGI: CloseableStreamIterator.close, own harness)
-    sk = v.choose(5 if asgi else 4, 'stream-kind')
+    sk = pick(v, 'stream-kind', 5 if asgi else 4)
     stream = None
     if sk == 1:
         stream = ReadStream(v, asgi)
@@ -179,7 +188,7 @@ def mk_resp(v, cls, asgi, statuses):
     # media: an opaque document rendered by the handler the registry resolves (C11 / C12 contracts): the handler returns arbitrary bytes
     # 0: no media; 1: media assigned, not rendered yet; 2: media assigned and already rendered earlier in the request (a hook / middleware
     #    called render_body): the rendering cache holds the bytes
-    has_media = v.choose(3, 'media?')
+    has_media = pick(v, 'media?', 3)
     media, rendered, handlers = None, None, None
     if has_media:
         media = _MediaDoc()
@@ -431,11 +440,18 @@ def _int_str(n):
     return str(n)
 
 
+# Variants.  With resp.text set render_body returns at once: data, media (and its rendering cache) and the stream are not read at all, so
+#   text = str    is crossed with everything that existed before the rendering cache was modelled (media: none / not yet rendered),
+#   text = bytes  (read at ONE place: the try/except around text.encode()) with stream none / file-like and media none / not yet rendered.
 for _m in ('GET', 'HEAD'):
-    for _t in (0, 1, 2):
-        for _fw in (0, 1):
-            harness(PROP, WSGI + '.__call__', name='wsgi_tail[%s,text=%d,file_wrapper=%d]' % (_m, _t, _fw), inline=W_INLINE, setup=_wsgi_setup,
-                    fix={'method': 0 if _m == 'GET' else 1, 'text?': _t, 'wsgi.file_wrapper?': _fw})(wsgi_tail)
+    _fx = {'method': 0 if _m == 'GET' else 1}
+    for _fw in (0, 1):
+        harness(PROP, WSGI + '.__call__', name='wsgi_tail[%s,text=0,file_wrapper=%d]' % (_m, _fw), inline=W_INLINE, setup=_wsgi_setup,
+                fix=dict(_fx, **{'text?': 0, 'wsgi.file_wrapper?': _fw}))(wsgi_tail)
+        harness(PROP, WSGI + '.__call__', name='wsgi_tail[%s,text=1,file_wrapper=%d]' % (_m, _fw), inline=W_INLINE, setup=_wsgi_setup,
+                fix=dict(_fx, **{'text?': 1, 'wsgi.file_wrapper?': _fw}), only={'media?': [0, 1]})(wsgi_tail)
+    harness(PROP, WSGI + '.__call__', name='wsgi_tail[%s,text=2]' % _m, inline=W_INLINE, setup=_wsgi_setup,
+            fix=dict(_fx, **{'text?': 2}), only={'media?': [0, 1], 'stream-kind': [0, 1]})(wsgi_tail)
 
 
 @harness(PROP, 'falcon.app_helpers:CloseableStreamIterator.__next__')
@@ -619,11 +635,19 @@ def _is_bytes(x):
     return isinstance(x, bytes) or (isinstance(x, SStr) and x.kind == 'bytes')
 
 
+# Variants: standard response class (the copy of render_body inlined in the tail) with every stream kind; a custom response class
+# (resp.render_body() awaited: only body selection differs, the emission code is shared) with stream none / file-like.  text = bytes and, with
+# text set, the rendering cache: as for WSGI above.
 for _m in (0, 1):
+    _mn = 'GET' if _m == 0 else 'HEAD'
     for _t in (0, 1, 2):
-        for _sk in (0, 1, 2, 3, 4):
-            harness(PROP, ASGI + '.__call__', name='asgi_tail[%s,text=%d,stream=%d]' % ('GET' if _m == 0 else 'HEAD', _t, _sk), inline=A_INLINE,
-                    setup=_asgi_setup, fix={'method': _m, 'text?': _t, 'stream-kind': _sk, 'status': 0})(asgi_tail)
+        _only = {} if _t == 0 else {'media?': [0, 1]}
+        for _sk in ((0, 1, 2, 3, 4) if _t < 2 else (0, 1)):
+            harness(PROP, ASGI + '.__call__', name='asgi_tail[%s,text=%d,stream=%d]' % (_mn, _t, _sk), inline=A_INLINE, setup=_asgi_setup, only=_only,
+                    fix={'method': _m, 'text?': _t, 'stream-kind': _sk, 'status': 0, 'custom-response-type?': 0})(asgi_tail)
+        for _sk in (0, 1):
+            harness(PROP, ASGI + '.__call__', name='asgi_tail[%s,text=%d,stream=%d,custom-response-class]' % (_mn, _t, _sk), inline=A_INLINE, setup=_asgi_setup,
+                    only=_only, fix={'method': _m, 'text?': _t, 'stream-kind': _sk, 'status': 0, 'custom-response-type?': 1})(asgi_tail)
 
 
 ASSUMPTIONS = [
@@ -643,6 +667,10 @@ ASSUMPTIONS = [
 NOT_DECIDED = [
     'SSE emission branch (asyncio task watching for disconnect) -- resp._sse is None in these harnesses',
     'what a media handler writes: the rendered document is arbitrary bytes returned by a handler stub (C11 resolves, C12 serializes)',
+    'cross products deliberately not taken (the restricted value is read at one place that cannot see the other dimension): resp.text holding BYTES is combined with '
+    'stream none / file-like and media none / not-yet-rendered only (the other text kinds with every stream kind); with resp.text set the rendering cache state '
+    '"already rendered" is not explored (render_body returns before looking at media); the custom ASGI response class is combined with stream none / file-like only '
+    '(the emission code after body selection is shared with the standard class, which is combined with every stream kind)',
     'header list construction _asgi_headers/_wsgi_headers with cookies (C15): resp._cookies and resp._extra_headers are None here although the quantifier names them '
     '(C15 proves the emitted list for every jar / raw-line state; the tails pass it on unchanged)',
 ]
